@@ -91,12 +91,18 @@ fn worker_main(args: &[String]) {
         let _ = progress_file.write_at(&run.to_le_bytes(), 0);
     };
     obs::install_quiet_hook();
-    let sum = match property {
+    // library panics are caught where the library is called; a panic that escapes to here is
+    // the harness's own (generator or oracle bug): a harness error, never a violation
+    let sum = std::panic::catch_unwind(std::panic::AssertUnwindSafe(|| match property {
         "C05" | "C08" => hist_engine::worker(property, seed, start, end, &mut progress, keep),
         "C07" => c07::worker(seed, start, end, &mut progress, keep),
         "C17" => c17::worker(seed, start, end, &mut progress, keep),
         "C20" => procsim::worker(seed, start, end, &mut progress, keep),
         _ => harness_error("worker: unknown property"),
+    }));
+    let sum = match sum {
+        Ok(s) => s,
+        Err(_) => harness_error(&format!("the harness itself panicked in a run of {start}..{end}: {}", obs::last_panic())),
     };
     std::fs::write(&out, serde_json::to_vec(&sum).unwrap()).unwrap();
 }
@@ -626,17 +632,23 @@ fn miri_run_main(args: &[String]) {
         let t0 = Instant::now();
         let plan = hist_engine::plan_for("C08", seed, run, true);
         let t1 = Instant::now();
-        let preds = match histsim::build_predictors(&plan) {
+        let build = || match histsim::build_predictors(&plan) {
             histsim::Built::Ok(p) => p,
             histsim::Built::HarnessError(e) => {
                 eprintln!("HARNESS-ERROR: run {run}: {e}");
                 std::process::exit(2)
             }
         };
+        // reference on its own predictors; the threads get a second, unused (cold) set
+        let serial = {
+            let preds_ref = build();
+            histsim::serial_traces(&plan, &preds_ref)
+        };
+        let preds = build();
         threads += plan.clients.len() * reps;
         ops += plan.n_ops() * (reps + 1);
         let t2 = Instant::now();
-        let r = histsim::execute_threaded(&plan, &preds, reps);
+        let r = histsim::execute_threaded(&plan, &preds, &serial, reps);
         if std::env::var("VERIF_MIRI_TIMING").is_ok() {
             eprintln!("run {run}: gen {:?} build {:?} exec {:?}", t1 - t0, t2 - t1, t2.elapsed());
         }
